@@ -85,8 +85,8 @@ PROPS = {
                         'leftover batches at the end of a cycle come out in Go map order: compared as a set'],
     },
     'C15': {
-        'families': ['buffer'],
-        'fields': {'buffer': ['obs', 'panic']},
+        'families': ['buffer', 'hist'],
+        'fields': {'buffer': ['obs', 'panic'], 'hist': None},
         'nontrivial': r'acts=.*E\d+,.*R',
         'rule': 'buffer family (in-package seam, real v2 buffer in a synctest bubble): every sequence of <=5 (quick) / <=7 (thorough) actions over '
                 '{blocking enqueue, error-mode enqueue, top, skip, remove, shutdown} for capacities 1..3, plus seeded random sequences up to 40/300 actions, capacities 1..4; '
@@ -131,9 +131,9 @@ PROPS = {
         'assumptions': _hist_assumptions,
     },
     'C14': {
-        'families': ['admit'],
-        'fields': {'admit': ['err', 'dneeds', 'dbuf']},
-        'nontrivial': r'hasop=1 hasw=1',
+        'families': ['admit', 'hist'],
+        'fields': {'admit': ['err', 'dneeds', 'dbuf'], 'hist': None},
+        'nontrivial': r'(hasop=1 hasw=1)|(tr=.*cbstart)',
         'rule': 'admit family: exhaustive grid gen{1,2} x op present x watcher present x limiter x MaxCapacity{0,1,5,2^32-1} x cost{0,3,max-1,max,max+1} '
                 'x MaxAttempts{0,1,3} x attempts 0..4 on a non-started Batcher holding one accepted operation; non-trivial = operation and watcher present',
         'explanation': 'characterisation theorems over M-Validate; implementation tie = exhaustive grid',
